@@ -27,13 +27,16 @@ pub fn reg_valued(e: &Expr) -> Option<u32> {
 /// F-C01-1: `x = E` where evaluating `E` writes a partial result into `x`'s register (the assignment
 /// target is used as the result register of `E`) and a later part of `E` reads `x`.
 pub fn early_write_then_read(x: u32, e: &Expr) -> bool {
+    // a jump (break / continue) that abandons the evaluation of E after the partial result was
+    // written leaves that partial result in x
+    let jumps = |o: &Expr| o.any(&|y| matches!(y, Expr::Break(_) | Expr::Continue));
     match e {
-        Expr::And(a, c) | Expr::Or(a, c) => c.reads(x) || early_write_then_read(x, a) || early_write_then_read(x, c),
+        Expr::And(a, c) | Expr::Or(a, c) => c.reads(x) || jumps(c) || early_write_then_read(x, a) || early_write_then_read(x, c),
         Expr::Cmp(_, rest) if rest.len() >= 2 => {
             // the first comparison's result goes to x's register; the middle operand is read from
             // its register afterwards, later operands are evaluated afterwards
             reg_valued(&rest[0].1) == Some(x)
-                || rest[1..].iter().any(|(_, o)| o.reads(x))
+                || rest[1..].iter().any(|(_, o)| o.reads(x) || jumps(o))
                 || rest[..rest.len() - 1].iter().skip(1).any(|(_, o)| reg_valued(o) == Some(x))
         }
         Expr::If(_, t, e) => early_write_then_read(x, t) || e.as_ref().is_some_and(|e| early_write_then_read(x, e)),
@@ -44,7 +47,7 @@ pub fn early_write_then_read(x: u32, e: &Expr) -> bool {
         Expr::While(..) | Expr::Until(..) | Expr::For(..) | Expr::Loop(_) => e.reads(x),
         // the map is created in x's register first: an entry value that reads x sees the new
         // (empty) map, one that assigns x replaces the map under construction
-        Expr::Map(entries) => entries.iter().any(|(_, v)| v.reads(x) || v.assigns(x)),
+        Expr::Map(entries) => entries.iter().any(|(_, v)| v.reads(x) || v.assigns(x) || jumps(v)),
         _ => false,
     }
 }
@@ -145,7 +148,7 @@ fn mutated_lists(p: &Expr) -> HashSet<u32> {
 
 fn fresh_list(e: &Expr) -> bool {
     match e {
-        Expr::List(_) => true,
+        Expr::List(_) | Expr::Map(_) => true,
         Expr::Arith(ArithOp::Add, ..) => true,
         Expr::Index(_, i) => matches!(**i, Expr::Range(..) | Expr::RangeFrom(_) | Expr::RangeTo(..) | Expr::RangeFull),
         _ => false,
